@@ -110,10 +110,16 @@ chk('C11', 'translation_validation',
     'entries and all operation sequences of length <=2 over join (fill / named), unjoin, selection, subs, + the real '
     'RandomVariables API is run and z3 decides, for all parameter values, that every variance, every covariance inside a '
     'block and every entry of covariance_matrix equal the harness table of declared (co)variances; names, levels, block '
-    'membership and the order of uninvolved variables are compared structurally.',
-    'NOT claimed: nearest PSD repair, cov2corr/corr2cov, parameters_sdcorr, UCP scaling (numpy linear algebra on floats, '
-    'out of solver reach). Trusted: the harness table; sympy->z3 translation.',
-    'z3 entrywise equality of covariance structures after real RandomVariables operations',
+    'membership and the order of uninvolved variables are compared structurally. Conversion clause: the real '
+    'internals.math.cov2corr / corr2cov and modeling.calculate_{se,corr,cov,prec}_from_* run on numpy object arrays / '
+    'pandas object frames of z3 Real terms (lib/symnum.py: every branch on an entry is decided or forked by the solver); '
+    'on every path z3 decides the defining relation (corr_ij*sd_i*sd_j = cov_ij, P.C = I, se_i^2 = C_ii, labels kept) and '
+    'the round trips cov -> (corr, se) -> cov for ALL matrices of size n <= 3 (thorough: inverse-free ones n = 4).',
+    'NOT claimed: nearest PSD repair, parameters_sdcorr, UCP scaling (np.linalg eig/svd/cholesky and symengine '
+    'substitution, out of solver reach); float rounding. Trusted: the harness table; sympy->z3 translation; numpy object-'
+    'array semantics; np.linalg.inv replaced by its contract (A.X = X.A = I).',
+    'z3 entrywise equality of covariance structures after real RandomVariables operations; symbolic execution of the '
+    'real conversion kernels over numpy object arrays of z3 terms',
     'DESIGN.md section 3 C11', 'E2')
 
 chk('C06', 'other',
